@@ -831,7 +831,6 @@ def _cross_object_task(task, p):
     (the same bytes read as another dtype, the same data under another nodata attribute / other time labels / as
     float32, other data on the same coordinates), then on A again ... in one process.  The expectation for every
     cube comes from a child process forked BEFORE this process has run the operation on any of them."""
-    import multiprocessing as mp
     name = task
     sub = "cross_object_sequences"
     da, O = operations()
@@ -853,22 +852,28 @@ def _cross_object_task(task, p):
             except Exception as e:  # noqa: BLE001
                 return ("raise", type(e).__name__)
 
-    def child(conn):
-        conn.send({v: compute(v) for v in variants})
-        conn.close()
+    def fresh(v):
+        """compute(v) in a child of its own, forked from this process as it is now (os.fork: pool workers are daemonic
+        and may not start multiprocessing children)."""
+        r, w = os.pipe()
+        pid = os.fork()
+        if pid == 0:
+            try:
+                os.close(r)
+                data = pickle.dumps(compute(v))
+                with os.fdopen(w, "wb") as fh:
+                    fh.write(data)
+            finally:
+                os._exit(0)
+        os.close(w)
+        with os.fdopen(r, "rb") as fh:
+            data = fh.read()
+        os.waitpid(pid, 0)
+        return pickle.loads(data) if data else None
 
-    ctx_ = mp.get_context("fork")
-    parent, ch = ctx_.Pipe()
-    pr = ctx_.Process(target=child, args=(ch,))
-    pr.start()
-    ch.close()
-    try:
-        refs = parent.recv()
-    except EOFError:
-        refs = None
-    pr.join(60)
-    if refs is None:
-        p.set_undecided(sub, f"reference child for {name} died")
+    refs = {v: fresh(v) for v in variants}
+    if any(r is None for r in refs.values()):
+        p.set_undecided(sub, f"a reference child for {name} died")
         return
     n = 0
     order = ["A"]
